@@ -415,4 +415,22 @@ def run_lists(cell, pb, xb, g, fails, seed):
         parts = [gpytorch.mlls.ExactMarginalLogLikelihood(m.likelihood, m)(m(*m.train_inputs), m.train_targets, *m.train_inputs) for m in fs]
         fails.check_close("sum-mll-params", val, sum(parts) / len(parts), 1e-12, 1e-12,
                           "SumMarginalLogLikelihood(outputs, targets, *train_inputs) != mean of the members' MLLs called with their own inputs")
-    return 9
+    # members that are themselves batched: the list objective stays one value per batch element (the members' per-element MLLs averaged)
+    with fails.guard("sum-mll-batched-members"):
+        bm = []
+        for i in range(2):
+            X, y = util.rand(g, 2, 4 + i, D), util.randn(g, 2, 4 + i)
+            m = models.ExactModel(X, y, "exact", seed, batch_shape=(2,))
+            distinct_params_(m, g)
+            bm.append(m)
+        bl = gpytorch.models.IndependentModelList(*bm)
+        bll = gpytorch.likelihoods.LikelihoodList(*[m.likelihood for m in bm])
+        bl.train()
+        val = gpytorch.mlls.SumMarginalLogLikelihood(bll, bl)(bl(*bl.train_inputs), bl.train_targets)
+        parts = [gpytorch.mlls.ExactMarginalLogLikelihood(m.likelihood, m)(m(*m.train_inputs), m.train_targets) for m in bm]
+        want = sum(parts) / len(parts)
+        if tuple(val.shape) != tuple(want.shape):
+            fails.add("sum-mll-batched-members", f"shape {tuple(val.shape)} != {tuple(want.shape)} (one value per batch element)")
+        else:
+            fails.check_close("sum-mll-batched-members", val, want, 1e-12, 1e-12)
+    return 10
